@@ -554,6 +554,23 @@ def run_admt(case, ctx):
         # the operator is P + Q/anisotropy with ||Q|| <= a few ||ref||: Lipschitz-continuous at anisotropy 1
         ctx.close(A, ref, "admt-continuity-at-1", rtol=1e-9 + 50.0 * abs(float(aniso) - 1.0), scale=_norm(ref),
                   info="anisotropy -> 1 must tend to (Dxx+Dyy+Dx/R)*sqrt(dx dy) %s" % desc)
+    # ---- a time loop on the caller's own objects: the same operators dict and the same flux-map buffer, refilled in place between
+    # the calls (psi, then psi + lam*x whose gradient cannot vanish, then psi again); each answer is that of fresh copies
+    lam = 3.0 * float(np.max(np.abs(gx))) + float(np.max(np.abs(gy)))
+    if lam > 0 and np.isfinite(lam):
+        buf, radii = psi.copy(), grid["x"].copy()
+        psi2 = psi + lam * (grid["x"] - float(np.mean(grid["x"])))
+        seq = []
+        for fill in (psi, psi2, psi):
+            buf[:] = fill
+            seq.append(_admt(ctx, grid, ops, buf, dx, dy, aniso, n, radii=radii))
+        ref2 = _admt(ctx, grid, {k: v.copy() for k, v in ops.items()}, psi2.copy(), dx, dy, aniso, n)
+        for k_, (got_, want_, what_) in enumerate(((seq[0], A, "psi"), (seq[1], ref2, "psi + lam*x (buffer refilled in place)"),
+                                                   (seq[2], A, "psi again (buffer refilled in place)"))):
+            ctx.check(bool(np.array_equal(got_, want_)), "admt-same-objects",
+                      lambda: "call %d on the same operators dict and flux-map buffer, holding %s: differs from the call on fresh copies by %.3g "
+                      "(operator norm %.3g) %s" % (k_ + 1, what_, float(np.max(np.abs(got_ - want_))), float(np.max(np.abs(want_))), desc))
+        ctx.label("same-objects")
     # ---- psi -> c*psi: same flux surfaces, same operator (every anisotropy)
     c = float(case.get("pscale", 1.0))
     if c != 1.0:
